@@ -41,6 +41,42 @@ func (c *chunkSrc) Read(p []byte) (int, error) {
 
 var errInjectedIO = fmt.Errorf("injected I/O error")
 
+// chunkScanner: the same source handed out as an io.ByteScanner (so that the Decoder adds no buffer of its own); ReadByte takes
+// the next byte whatever the chunking, `taken` counts every byte that left the source
+type chunkScanner struct {
+	chunkSrc
+	taken int
+}
+
+func (c *chunkScanner) Read(p []byte) (int, error) {
+	n, err := c.chunkSrc.Read(p)
+	c.taken += n
+	return n, err
+}
+
+func (c *chunkScanner) ReadByte() (byte, error) {
+	// a ByteScanner has no notion of an empty read: (as in the model's srcReadByte) the pieces still to come lose their empty ones
+	kept := c.chunks[:0]
+	for _, ch := range c.chunks {
+		if len(ch) > 0 {
+			kept = append(kept, ch)
+		}
+	}
+	c.chunks = kept
+	if len(c.chunks) == 0 {
+		return 0, c.fin
+	}
+	b := c.chunks[0][0]
+	c.chunks[0] = c.chunks[0][1:]
+	if len(c.chunks[0]) == 0 {
+		c.chunks = c.chunks[1:]
+	}
+	c.taken++
+	return b, nil
+}
+
+func (c *chunkScanner) UnreadByte() error { return fmt.Errorf("not supported") }
+
 // ioCorrespondence ties lean/KmipModel/Io.lean to Go's io.ReadFull and io.LimitReader: random chunkings (empty chunks,
 // eager final error, EOF or an I/O error at the end), random request sizes and limits; compared on the bytes returned, the
 // error class, and what a subsequent read-to-the-end returns
@@ -368,6 +404,24 @@ func decStackCorrespondence(r *Result, d *drv.Driver, g *gen.G, inputs []decInpu
 		if eager {
 			e = 1
 		}
+		if len(cases)%3 == 2 {
+			// every third case: the source is an io.ByteScanner (unbuffered Decoder): bytes taken from it must be exactly the message
+			clone := make([][]byte, len(chunks))
+			for i := range chunks {
+				clone[i] = append([]byte(nil), chunks[i]...)
+			}
+			sc := &chunkScanner{chunkSrc: chunkSrc{chunks: clone, fin: fin, eager: eager}}
+			o := decodeWith(kmip.NewDecoder(sc), types[in.typ])
+			real := o.class
+			if o.class == "ok" {
+				real = fmt.Sprintf("ok %s pulled=%d", o.value, sc.taken)
+				if len(in.data) >= 8 && sc.taken != declaredEnd(in.data) {
+					r.find(Finding{Kind: "violation", What: "a successful Decode from an unbuffered (io.ByteScanner) source did not take exactly 8 + declared length bytes from it", Input: fmt.Sprintf("decscan %s %s %d %s", in.typ, finName, e, cs), Expect: fmt.Sprint(declaredEnd(in.data)), Actual: fmt.Sprint(sc.taken)})
+				}
+			}
+			cases = append(cases, tc{fmt.Sprintf("decscan %s %s %d %s", in.typ, finName, e, cs), real, in.origin})
+			continue
+		}
 		cr := &countingReader{r: &chunkSrc{chunks: chunks, fin: fin, eager: eager}}
 		o := decodeWith(kmip.NewDecoder(cr), types[in.typ])
 		real := o.class
@@ -387,7 +441,7 @@ func decStackCorrespondence(r *Result, d *drv.Driver, g *gen.G, inputs []decInpu
 	}
 	for i, c := range cases {
 		r.eval(c.line, true)
-		r.Stats["decstk:"+strings.Fields(c.real)[0]]++
+		r.Stats[strings.Fields(c.line)[0]+":"+strings.Fields(c.real)[0]]++
 		if replies[i] != c.real {
 			r.find(Finding{Kind: "disagreement", What: "the decoder-over-the-reader-stack model differs from the real Decode (" + c.origin + ")", Input: c.line, Expect: replies[i], Actual: c.real})
 		}
